@@ -9,7 +9,8 @@ from .nlpprop import TRUSTED, ASSUMPTIONS
 
 OPTS = {"methods": ["MS", "SS", "DC"], "intgs": ["rk", "expl_euler"], "N_max": 4, "M_max": 3, "deg_max": 3,
         "constraints": False, "objective": False, "p_freeT": 0.4, "p_freet0": 0.3, "p_paramT": 0.1,
-        "p_var": 0.6, "grids": ("Uniform", "Geometric", "Function"), "p_scale": 0.3, "p_dae": 0.4}
+        "p_var": 0.6, "grids": ("Uniform", "Geometric", "Function", "Free"), "p_scale": 0.3, "p_dae": 0.4,
+        "p_localize": 0.3}
 
 KINDS = {"x": ("states", "GX"), "u": ("controls", "GU"), "z": ("algebraics", "GZ")}
 
@@ -174,9 +175,15 @@ def model_run(cps, inputs, name):
 
 
 def flat_model(mv, qnames):
-    X, U, V, VC, VP, (T, t0), (Xi, Xc, Zc) = mv
+    X, U, V, VC, VP, (T, t0), (Xi, Xc, Zc), (t0loc, Tloc) = mv
     out = []
     for nm, sh in qnames:
+        if nm == "t0loc":
+            out += list(t0loc)
+            continue
+        if nm == "Tloc":
+            out += list(Tloc)
+            continue
         if nm == "X":
             out += [v for col in X for v in col]
         elif nm == "U":
